@@ -31,6 +31,10 @@ def run(tier):
                           bounds='3 apps x 0-2 evolutions x applied prefix 0..n x 4 dependency kinds x 2 levels x source/target app and label x 2 registration orders',
                           functions=['utils/graph.py EvolutionGraph.add_evolutions, mark_evolutions_applied, iter_batches, _add_evolution*, DependencyGraph.*',
                                      'utils/evolutions.py get_evolution_dependencies, get_evolution_app_dependencies, get_evolution_module(s)']))
+    obs.append(Obligation('evolution_deps', 'harness/c09.py', 'h_evolution_deps', timeout=400,
+                          what='get_evolution_dependencies returns the union of the declared AFTER/BEFORE_EVOLUTIONS/MIGRATIONS of an evolution (module attributes or custom-evolution entry) and the dependencies its mutations generate (MoveToDjangoMigrations)',
+                          bounds='all 2^4 combinations of declared lists x {no, default, two-migration} MoveToDjangoMigrations x {module, custom evolution}',
+                          functions=['utils/evolutions.py get_evolution_dependencies', 'mutations/move_to_django_migrations.py generate_dependencies']))
     return run_check('C09', obs, tier,
                      assumptions=['fake app modules (sys.modules entries vfa0..2 with evolutions packages); get_app_label/get_app_name answer from them; importlib runs untraced; migrations are not part of the graph harness', 'node keys are the fixed strings n0..n3 inserted in index order (any insertion order is a relabelling of some enumerated graph)'],
                      trusted_base=['CrossHair 0.0.110', 'z3 5.1.0', 'vlib/ch_patch.py', 'oracle _acyclic/_order_ok in harness/c09.py'])
